@@ -167,24 +167,20 @@ def run(chk):
         dist = {"reference_runs": 0, "single_reboot": 0, "multi_reboot": 0, "after_completion_before_mark": 0, "after_refusal": 0}
         nt = evaluate(chk, scns, lines, impl, outs, variant, dist)
         chk.note_cases("session-twin[%s]" % variant, lines, nt, sample_n=1, dist=dist)
-    # more than 256 data fragments with a stride-aligned blank window of the status table: the model takes minutes per
-    # run at this size, so the quick tier runs these against the oracle alone and the thorough tier compares a few with the model
+    # more than 256 data fragments with a stride-aligned blank window of the status table
     scns = []
-    for _ in range(3 if chk.quick() else 24):
+    for _ in range(2 if chk.quick() else 24):
         b = wide_window_base(rnd)
         fc = len([i for i in b.meta["seq"] if i <= b.meta["n"]]); nl = len(b.meta["lost"])
         scns += twin_scenarios(rnd, True, base=b, positions=lambda npos, fc=fc, nl=nl: sorted(set([fc - 1, fc + 1, fc + 2, fc + nl // 2, fc + nl - 2, fc + nl - 1, fc + nl] + rnd.sample(range(1, fc), 2))))
-    lines, impl, outs = session.run(chk, scns, variant="matrix", stream="session-twin-wide", with_model=False)
+    lines, impl, outs = session.run(chk, scns, variant="matrix", stream="session-twin-wide")
     dist = {"reference_runs": 0, "single_reboot": 0, "multi_reboot": 0, "after_completion_before_mark": 0, "after_refusal": 0}
     nt = evaluate(chk, scns, lines, impl, outs, "matrix", dist)
-    chk.note_cases("session-twin-wide[matrix, oracle only]", lines, nt, sample_n=0, dist=dist)
-    if not chk.quick() and not chk.failures:
-        sub = [s for s in scns if s.meta["tag"] == "twin"][:16]
-        session.run(chk, sub, variant="matrix", stream="session-twin-wide(model)")
+    chk.note_cases("session-twin-wide[matrix]", lines, nt, sample_n=0, dist=dist)
     if (chk.broken or chk.drift) and not chk.failures:
         search(chk, rnd)
     return chk.finish(level="proof",
-        rule="session-twin-wide: 520..620 one-byte fragments, one 256-aligned window of the segment status table never written plus 1..3 losses behind it, reboots in stage 1, around the first coded fragment, mid-way and around completion (oracle only in the quick tier: the model needs minutes per run at this size; the thorough tier also compares 16 of them with the model); "
+        rule="session-twin-wide: 520..620 one-byte fragments, one 256-aligned window of the segment status table never written plus 1..3 losses behind it, reboots in stage 1, around the first coded fragment, mid-way and around completion; "
              "session-twin: for each delivery scenario (geometries with capacity >= 1; ring positions from random histories, and explicitly the pair that wraps the ring end) one uninterrupted run and runs with drop + try_recover before fragment p for every p (all positions for short scripts, a sample incl. first / last / after completion otherwise), "
              "several positions at once and at every position; overflow-checked and release builds; non-trivial = every twin run; distinct by case text",
         trusted=core.TRUSTED_COMMON)
